@@ -120,3 +120,25 @@ Example C03_array_literal_first_element_once_agrees :
   ref_tests 60 sparr_twice = Some [(4%N, Ok (CNormal, [(7%N, (false, VArr [8; 9]%Z))]) [56; 10]%N)] /\
   exists rs sk stk, run_interp 60 sparr_twice [] = TDone rs sk stk /\ all_passed rs = true /\ map tr_out rs = [[56; 10]]%N.
 Proof. exact first_element_once_agrees. Qed.
+
+(* ---- strings as computed values: inside names_apart the evaluator agrees on + / int_to_string / str_equals / str_concat /
+   str_contains / char_at and on str_substring of a literal from a start inside it (clause (e) of names_apart) *)
+Example C03_strings_agree :
+  names_apart spstr_good = true /\
+  exists rs sk stk, run_interp 80 spstr_good [] = TDone rs sk stk /\ all_passed rs = true /\
+    map tr_out rs = [[97; 98; 99; 45; 52; 50; 10; 97; 98; 99; 45; 52; 50; 33; 10]]%N /\
+    ref_tests 80 spstr_good =
+      Some [(2%N, Ok (CNormal, [(7%N, (false, VStr [97; 98; 99; 45; 52; 50]%N))])
+                     [97; 98; 99; 45; 52; 50; 10; 97; 98; 99; 45; 52; 50; 33; 10]%N)].
+Proof. exact strings_agree. Qed.
+(* str_substring with start = length of the string: "" in the language, void in the evaluator -- without clause (e)
+   interp_correct is false (finding c03:builtin:str_substring:start-at-or-past-the-end-is-void-in-the-evaluator) *)
+Theorem C03_substring_past_the_end_refutes : refutes spstr_past_end 80.
+Proof. exact refuted_substring_past_end. Qed.
+Print Assumptions C03_substring_past_the_end_refutes.
+(* char_at outside the string: the reference is undefined there, the theorem is silent; the evaluator yields void *)
+Example C03_char_at_outside_at_compile_time :
+  names_apart spstr_char_at_outside = true /\
+  ref_tests 80 spstr_char_at_outside = Some [(4%N, Fault FStrDomain [])] /\
+  exists rs sk stk, run_interp 80 spstr_char_at_outside [] = TDone rs sk stk /\ all_passed rs = false.
+Proof. exact char_at_outside_at_compile_time. Qed.
